@@ -6,7 +6,8 @@ from typing import Any, Optional, Sequence, Self, Callable
 from collections import defaultdict
 from itertools import product as py_product
 
-from sympy import (Basic, Expr, S, Mul as SymMul, Add as SymAdd, Derivative as SymDerivative,
+from sympy import (Basic, Expr, S, Mul as SymMul, Add as SymAdd, Pow as SymPow,
+    Derivative as SymDerivative,
     fraction, sympify as sym_sympify)
 from sympy.core import function as sym_fn
 from sympy.core.parameters import global_parameters
@@ -52,6 +53,12 @@ def is_vector_expr(value: Any) -> bool:  # pylint: disable=too-many-return-state
         _, denominator = fraction(value)
 
         if is_vector_expr(denominator):
+            return False
+
+        # `fraction` does not move powers of non-commutative factors (e.g. cross products) into the
+        # denominator, and it puts `v**2` there as a whole: a power of a vector is never a vector
+        # factor, whatever its exponent.
+        if any(isinstance(arg, SymPow) and is_vector_expr(arg.base) and arg.base != 0 for arg in value.args):
             return False
 
         n_vectors = 0
